@@ -218,4 +218,43 @@ CONTRACTS = {
              ('size-field', "implies(code() == 1 and not timeout(), printed_int(result, 'size: ') == self.num_students - Count(i, self.num_students, not exists(q, 0, len(pair_assignments), pair_assignments[q].student_index == i)))"),
              ('cost-field', "implies(code() == 1 and not timeout(), printed(result, 'cost: ')[0] == Sum(q, len(pair_assignments), pair_assignments[q].rank_student) and printed(result, 'cost: ')[1] == Sum(q, len(pair_assignments), rl(pair_assignments[q])))"),
              ('degree-field', "implies(code() == 1 and not timeout(), forall(q, 0, len(pair_assignments), pair_assignments[q].rank_student <= printed_int(result, 'degree: ')))")]),
+
+ # ---- derived lists (C10): project_lists[j] / lecturer_lists[k] / rank_lists[r] hold exactly the pairs with that project / lecturer / rank,
+ #      each as often as it occurs in the main structure (element-set view + sum identity left to the bounded stand-in)
+ M + 'set_rank_lists': dict(
+    theory=['listsets'],
+    requires=['sizes_ok(self)', 'pairs_ok(self)'],
+    defs={'inrow': (['r', 'i', 'upto'], 'exists(c, 0, upto, self.pairs[i][c] == r)'),
+          'seen': (['r', 'rows', 'upto'], 'exists(i, 0, rows, inrow(r, i, len(self.pairs[i]))) or inrow(r, rows, upto)')},
+    loops={0: dict(invariant=['is_max_rank(self, len(self.rank_lists))',
+                              'forall(k, 0, len(self.rank_lists), forall(r, (ref(r) in elems(self.rank_lists[k])) == (seen(ref(r), _k, 0) and ref(r).rank_student == k + 1)))']),
+           1: dict(invariant=['is_max_rank(self, len(self.rank_lists))',
+                              'forall(k, 0, len(self.rank_lists), forall(r, (ref(r) in elems(self.rank_lists[k])) == (seen(ref(r), _k0, _k) and ref(r).rank_student == k + 1)))'])},
+    modifies=['self.rank_lists'],
+    ensures=[('one-list-per-rank', 'is_max_rank(self, len(self.rank_lists))'),
+             ('rank-list-holds-exactly-the-pairs-of-that-rank', 'forall(k, 0, len(self.rank_lists), forall(r, (ref(r) in elems(self.rank_lists[k])) == (seen(ref(r), len(self.pairs), 0) and ref(r).rank_student == k + 1)))')]),
+ M + 'set_project_lists': dict(
+    theory=['listsets'],
+    requires=['sizes_ok(self)', 'pairs_ok(self)'],
+    defs={'inrow': (['r', 'i', 'upto'], 'exists(c, 0, upto, self.pairs[i][c] == r)'),
+          'seen': (['r', 'rows', 'upto'], 'exists(i, 0, rows, inrow(r, i, len(self.pairs[i]))) or inrow(r, rows, upto)')},
+    loops={0: dict(invariant=['len(self.project_lists) == self.num_projects',
+                              'forall(k, 0, self.num_projects, forall(r, (ref(r) in elems(self.project_lists[k])) == (seen(ref(r), _k, 0) and ref(r).project_index == k)))']),
+           1: dict(invariant=['len(self.project_lists) == self.num_projects',
+                              'forall(k, 0, self.num_projects, forall(r, (ref(r) in elems(self.project_lists[k])) == (seen(ref(r), _k0, _k) and ref(r).project_index == k)))'])},
+    modifies=['self.project_lists'],
+    ensures=[('one-list-per-project', 'len(self.project_lists) == self.num_projects'),
+             ('project-list-holds-exactly-the-pairs-of-that-project', 'forall(k, 0, self.num_projects, forall(r, (ref(r) in elems(self.project_lists[k])) == (seen(ref(r), len(self.pairs), 0) and ref(r).project_index == k)))')]),
+ M + 'set_lecturer_lists': dict(
+    theory=['listsets'],
+    requires=['sizes_ok(self)', 'pairs_ok(self)'],
+    defs={'inrow': (['r', 'i', 'upto'], 'exists(c, 0, upto, self.pairs[i][c] == r)'),
+          'seen': (['r', 'rows', 'upto'], 'exists(i, 0, rows, inrow(r, i, len(self.pairs[i]))) or inrow(r, rows, upto)')},
+    loops={0: dict(invariant=['len(self.lecturer_lists) == self.num_lecturers',
+                              'forall(k, 0, self.num_lecturers, forall(r, (ref(r) in elems(self.lecturer_lists[k])) == (seen(ref(r), _k, 0) and ref(r).lecturer_index == k)))']),
+           1: dict(invariant=['len(self.lecturer_lists) == self.num_lecturers',
+                              'forall(k, 0, self.num_lecturers, forall(r, (ref(r) in elems(self.lecturer_lists[k])) == (seen(ref(r), _k0, _k) and ref(r).lecturer_index == k)))'])},
+    modifies=['self.lecturer_lists'],
+    ensures=[('one-list-per-lecturer', 'len(self.lecturer_lists) == self.num_lecturers'),
+             ('lecturer-list-holds-exactly-the-pairs-of-that-lecturer', 'forall(k, 0, self.num_lecturers, forall(r, (ref(r) in elems(self.lecturer_lists[k])) == (seen(ref(r), len(self.pairs), 0) and ref(r).lecturer_index == k)))')]),
 }
